@@ -20,7 +20,14 @@ const P: &str = "C01";
 
 pub fn check_trait<S: Scheme>(scn: &Scn, ctx: &mut CaseCtx) -> Result<(), Failure> {
     let tier = current_tier();
-    let sess = match Session::<S>::build(scn, tier) {
+    // one case in twelve runs under the scheme's large keys (256 / 512 key elements and a little beyond),
+    // where the scheme has any: size thresholds are invisible at the ordinary sizes
+    let built = if scn.seeds[2] % 12 == 5 {
+        S::keys_large(&scn.key, tier, scn.seeds[2] / 12).and_then(|k| Session::<S>::build_with_keys(scn, k))
+    } else {
+        Session::<S>::build(scn, tier)
+    };
+    let sess = match built {
         Ok(s) => s,
         Err(e) => {
             let stage = e.split(':').next().unwrap_or("build").to_string();
@@ -33,6 +40,7 @@ pub fn check_trait<S: Scheme>(scn: &Scn, ctx: &mut CaseCtx) -> Result<(), Failur
     };
     let nt = classify(&sess, ctx);
     ctx.nontrivial_if(nt);
+    ctx.label_if(sess.keys.info.num_vars == 1 && sess.keys.info.max_degree >= 255, "large_key");
     ctx.derived = Some(sess.describe());
 
     // single-point open/check on every group (positional API, prover's order on both sides)
